@@ -98,10 +98,12 @@ pub async fn observe(run: &Run) -> Value {
 }
 
 fn write_key_file(guid: &str, key: &str) {
-    let dir = "/var/lib/azure-proxy-agent/keys";
-    let _ = std::fs::create_dir_all(dir);
-    let body = serde_json::to_vec_pretty(&json!({"authorizationScheme": "Azure-HMAC-SHA256", "guid": guid, "issued": "2027-01-15T08:00:00Z", "key": key})).unwrap();
-    let _ = std::fs::write(format!("{}/{}.key", dir, guid), body);
+    crate::seams::untraced(|| {
+        let dir = "/var/lib/azure-proxy-agent/keys";
+        let _ = std::fs::create_dir_all(dir);
+        let body = serde_json::to_vec_pretty(&json!({"authorizationScheme": "Azure-HMAC-SHA256", "guid": guid, "issued": "2027-01-15T08:00:00Z", "key": key})).unwrap();
+        let _ = std::fs::write(format!("{}/{}.key", dir, guid), body);
+    })
 }
 
 pub async fn custom_step(run: &mut Run, idx: usize, kind: &str, s: &Value) -> bool {
@@ -431,5 +433,201 @@ pub fn check_c09(run: &mut Run) {
     run.stat("c09.state_changes_judged", n_state_changes);
     for (c, d) in viol {
         run.violate("C09", &c, d);
+    }
+}
+
+// ------------------------------------------------------------------------------------------------
+// C12: the key value never leaves the key store
+
+/// C09-style histories biased towards everything that handles key material: defective key documents that still
+/// contain the value, non-hex / odd-length keys, attest failures, rotation, disable/enable, /provision queries,
+/// allowed and denied client requests at the shipped (Trace) log level.
+pub fn gen_c12(seed: u64, tier: &str) -> Value {
+    let mut r = Rng::derive(seed, "host");
+    let procs = gen_procs(&mut r, 3, true);
+    let mut steps = Vec::new();
+    let nsteps = 2 + r.below(if tier == "thorough" { 8 } else { 5 });
+    let mut tokn = 0u64;
+    for k in 0..nsteps {
+        match r.below(5) {
+            0 => steps.push(json!({"t": "host_latch", "mode": *r.pick(&["none", "new", "rotate_with_file"])})),
+            1 => steps.push(json!({"t": "doc", "doc": doc_v1("disabled")})),
+            _ => {
+                let d = if r.chance(1, 2) { doc_v1(*r.pick(&["wireserver", "wireserverandimds"])) } else { doc_v2(true, Some(json!({"imds": grant_all_item(&format!("imds-{}", k), *r.pick(&["enforce", "audit"]), *r.pick(&["allow", "deny"]), Some(&procs[r.below(3) as usize]))}))) };
+                steps.push(json!({"t": "doc", "doc": d}));
+                if r.chance(1, 2) {
+                    steps.push(json!({"t": "host_latch", "mode": "none"})); // force a fresh acquire
+                }
+            }
+        }
+        for _ in 0..r.below(3) {
+            match r.below(6) {
+                0 | 1 | 2 => steps.push(json!({"t": "host_fault", "kind": "acquire", "fault": {"f": "key_doc", "variant": *r.pick(&["missing_issued", "wrong_type", "truncated", "utf16", "xml_type", "nonhex", "oddlen"])}})),
+                3 => steps.push(json!({"t": "host_fault", "kind": "attest", "fault": {"f": "status", "status": *r.pick(&[403u64, 500, 503])}})),
+                4 => steps.push(json!({"t": "host_fault", "kind": "attest", "fault": {"f": "reset_after"}})),
+                _ => steps.push(json!({"t": "host_fault", "kind": "status", "fault": {"f": "status", "status": 503}})),
+            }
+        }
+        steps.push(json!({"t": "drain_faults", "max_s": 300}));
+        steps.push(json!({"t": "wait_polls", "n": 2, "max_s": 400}));
+        let mut conns = Vec::new();
+        for _ in 0..1 + r.below(3) {
+            let dst = *r.pick(&["imds", "wire", "direct", "ga"]);
+            tokn += 1;
+            let target = if dst == "direct" { "/provision".to_string() } else { r.pick(&["/metadata/instance?api-version=2018-02-01", "/machine?comp=goalstate", "/metadata/identity/oauth2/token?resource=x"]).to_string() };
+            let mut hs = vec![json!(["Host", host_name_of(dst)]), json!(["Metadata", "true"])];
+            if dst == "direct" {
+                hs.push(json!(["x-ms-azure-time_tick", *r.pick(&["0", "99999999999999999999999999999", "abc"])]));
+                if r.chance(1, 2) {
+                    hs.push(json!(["x-ms-azure-notify", "true"]));
+                }
+            }
+            conns.push(json!({"proc": r.below(3), "dst": dst, "start_ms": r.below(50), "reqs": [{"method": "GET", "target": target, "headers": hs, "tok": format!("t{}", tokn)}]}));
+        }
+        steps.push(json!({"t": "clients", "conns": conns}));
+    }
+    // let the status and telemetry tasks publish (they start one minute after start at the latest)
+    steps.push(json!({"t": "sleep", "ms": 200_000}));
+    let knobs = gen_knobs(&mut r, false);
+    json!({
+        "scenario": "keeper:C12", "seed": seed, "family": "keeper", "prop": "C12",
+        "knobs": knobs, "procs": procs, "users": users_json(), "steps": steps, "oracles": ["C12"],
+        "key_hex_upper": r.chance(1, 2),
+        "config": {"pollKeyStatusIntervalInSeconds": 1 + r.below(10)}, "settle_ms": 1000, "faulty": true,
+    })
+}
+
+fn find(hay: &[u8], needle: &[u8]) -> Option<usize> {
+    if needle.is_empty() || hay.len() < needle.len() {
+        return None;
+    }
+    hay.windows(needle.len()).position(|w| w == needle)
+}
+
+pub fn check_c12(run: &mut Run) {
+    let key_dir = "/var/lib/azure-proxy-agent/keys/";
+    // taints: every key value the host ever issued, in the spellings a leak could take
+    let mut taints: Vec<(String, Vec<u8>)> = Vec::new();
+    {
+        let g = run.hosts.lock().unwrap();
+        for (guid, key) in g.issued.iter() {
+            taints.push((guid.clone(), key.as_bytes().to_vec()));
+            taints.push((guid.clone(), key.to_lowercase().into_bytes()));
+            taints.push((guid.clone(), key.to_uppercase().into_bytes()));
+            if let Some(raw) = crate::crypto::unhex(key) {
+                taints.push((guid.clone(), raw));
+            }
+        }
+    }
+    taints.sort();
+    taints.dedup();
+    let mut viol: Vec<(String, String)> = Vec::new();
+    let mut scanned = 0i64;
+    let mut scanned_bytes = 0i64;
+    let cap = crate::seams::take_capture();
+    for (class, data) in cap.iter() {
+        let is_key_file = class.starts_with(key_dir) && (class.ends_with(".key") || class.ends_with(".tmp")) && !class.contains("status.tag");
+        if is_key_file {
+            continue;
+        }
+        scanned += 1;
+        scanned_bytes += data.len() as i64;
+        for (guid, t) in taints.iter() {
+            if let Some(pos) = find(data, t) {
+                let a = pos.saturating_sub(160);
+                let ctx = String::from_utf8_lossy(&data[a..pos]).replace(|c: char| c.is_control(), " ");
+                let sink = if class.starts_with("/var/log/azure-proxy-agent/events") { "telemetry event file".to_string() } else { class.clone() };
+                let site = ["Failed to json deserialize", "Failed to xml deserialize", "Hex encoded key", "Failed to attest", "Failed to acquire", "compute_signature"].iter().find(|s| ctx.contains(**s)).map(|s| s.to_string()).unwrap_or_else(|| "other text".to_string());
+                viol.push((format!("key value written to {} (in: {})", sink_kind(&sink), site), format!("key of {} found in {} at offset {}; preceding text: ...{}", guid, sink, pos, ctx.chars().rev().take(120).collect::<String>().chars().rev().collect::<String>())));
+                break;
+            }
+        }
+    }
+    // bytes returned to local clients
+    for (_pi, cp, cr) in run.conns.iter() {
+        for res in cr.results.iter() {
+            if let Some(m) = &res.resp {
+                scanned += 1;
+                for (guid, t) in taints.iter() {
+                    if find(&m.head.raw, t).is_some() || find(&m.body, t).is_some() {
+                        viol.push(("key value returned to a local client".into(), format!("key of {} in the response to tok={} ({})", guid, res.tok, cp.dst_name)));
+                        break;
+                    }
+                }
+            }
+        }
+    }
+    // telemetry uploads
+    {
+        let g = run.hosts.lock().unwrap();
+        for rv in g.log.iter().filter(|r| r.kind == "telemetry") {
+            scanned += 1;
+            for (guid, t) in taints.iter() {
+                if find(&rv.msg.body, t).is_some() {
+                    viol.push(("key value uploaded in a telemetry batch".into(), format!("key of {}", guid)));
+                    break;
+                }
+            }
+        }
+    }
+    // the key directory is restricted before the first key file is created in it
+    let events = vrt::with(|w| w.events.iter().filter(|e| e.kind == "disk").map(|e| e.text.clone()).collect::<Vec<_>>());
+    let mut chown_ok = false;
+    let mut chmod_ok = false;
+    let mut first_key_create = false;
+    for e in events.iter() {
+        if e.starts_with("chown /var/lib/azure-proxy-agent/keys ") && e.ends_with("-> ok") && e.contains("uid=0") {
+            chown_ok = true;
+        }
+        if e.starts_with("chmod /var/lib/azure-proxy-agent/keys ") && e.ends_with("-> ok") && e.contains("mode=0o700") {
+            chmod_ok = true;
+        }
+        if e.starts_with("open /var/lib/azure-proxy-agent/keys/") && e.contains("+creat") && (e.contains(".key ") || e.contains(".tmp ")) && !e.contains("status.tag") && !first_key_create {
+            first_key_create = true;
+            if !(chown_ok && chmod_ok) {
+                viol.push(("key file created before the key directory was restricted".into(), format!("{} (chown done: {}, chmod 0700 done: {})", e, chown_ok, chmod_ok)));
+            }
+            use std::os::unix::fs::PermissionsExt;
+            if let Ok(md) = std::fs::metadata("/var/lib/azure-proxy-agent/keys") {
+                let _ = md.permissions().mode();
+            }
+        }
+    }
+    if first_key_create {
+        use std::os::unix::fs::PermissionsExt;
+        if let Ok(md) = std::fs::metadata("/var/lib/azure-proxy-agent/keys") {
+            if md.permissions().mode() & 0o777 != 0o700 {
+                viol.push(("key directory is not mode 0700".into(), format!("mode {:o}", md.permissions().mode() & 0o777)));
+            }
+        }
+        run.stat("c12.key_files_created", 1);
+    }
+    run.stat("c12.sinks_scanned", scanned);
+    run.stat("c12.bytes_scanned", scanned_bytes);
+    run.stat("c12.taints", taints.len() as i64);
+    for (c, d) in viol {
+        run.violate("C12", &c, d);
+    }
+}
+
+fn sink_kind(sink: &str) -> &'static str {
+    if sink.contains("ProxyAgent.Connection") {
+        "the connection log"
+    } else if sink.contains("ProxyAgent.log") || sink.contains("ProxyAgent.") {
+        "the agent log"
+    } else if sink == "telemetry event file" {
+        "a telemetry event file"
+    } else if sink.contains("status.json") || sink.contains("status.tmp") {
+        "the status file"
+    } else if sink.contains("status.tag") || sink.contains("provisioned.tag") {
+        "a provision tag file"
+    } else if sink == "stdout" || sink == "stderr" {
+        "console output"
+    } else if sink.contains("/dev/console") {
+        "the serial console"
+    } else if sink.contains("AuthorizationRules") {
+        "a rule dump"
+    } else {
+        "a file outside the key store"
     }
 }
